@@ -273,6 +273,55 @@ def adjoint_alphabet(n, thorough):
     return A + gl_extras(n)
 
 
+# ------------------------------------------------------------------------------------------
+# purity: the maps answer from their arguments, in any order of calls (module-level caches!)
+# ------------------------------------------------------------------------------------------
+def _purity_calls():
+    from geometry_tools import lie
+    A = np.array([[2.0, 1.0], [1.0, 1.0]])
+    Bc = np.array([[1.0 + 0j, 1j], [0j, 1.0 + 0j]])
+    A3 = np.array([[1.0, 1.0, 0.0], [0.0, 1.0, 1.0], [0.0, 0.0, 1.0]])
+    stack = np.array([[[2.0, 1.0], [1.0, 1.0]], [[1.0, 2.0], [0.0, 1.0]]])
+    return [
+        ("sl2_irrep/n3", lambda a: lie.sl2_irrep(a, 3), [A]),
+        ("sl2_irrep/n4-stack", lambda a: lie.sl2_irrep(a, 4), [stack]),
+        ("sl2_to_so21", lambda a: lie.sl2_to_so21(a), [A]),
+        ("sl2_to_so21/stack", lambda a: lie.sl2_to_so21(a), [stack]),
+        ("o_to_pgl", lambda a: lie.o_to_pgl(lie.sl2_to_so21(a)), [A]),
+        ("gln_adjoint", lambda a: lie.gln_adjoint(a, dtype="float64"), [A]),
+        ("gln_adjoint/n3", lambda a: lie.gln_adjoint(a, dtype="float64"), [A3]),
+        ("sln_adjoint", lambda a: lie.sln_adjoint(a, dtype="float64"), [A]),
+        ("sln_adjoint/n3", lambda a: lie.sln_adjoint(a, dtype="float64"), [A3]),
+        ("sln_adjoint/complex", lambda a: lie.sln_adjoint(a, dtype="complex128"), [Bc]),
+        ("gln_adjoint/complex", lambda a: lie.gln_adjoint(a, dtype="complex128"), [Bc]),
+        ("sln_killing_form", lambda: lie.sln_killing_form(3), []),
+        ("slc_to_slr", lambda a: lie.slc_to_slr(a), [Bc]),
+        ("sl2c_to_so31", lambda a: lie.sl2c_to_so31(a), [Bc]),
+        ("sl2c_herm_action", lambda a: lie.sl2c_herm_action(a), [Bc]),
+        ("block_include", lambda a: lie.block_include(a, 4), [A]),
+    ]
+
+
+def case_purity(case):
+    """All maps in one process, in the order given by the case (a rotation of the list): every call is checked
+    for purity, and every answer must equal the answer the same call gives when it is the FIRST call of its
+    kind (recorded by running the unrotated order in the same case)."""
+    from mc import diffhist
+    calls = _purity_calls()
+    k = case["rot"] % len(calls)
+    order = calls[k:] + calls[:k]
+    v = []
+    first = {}
+    for name, f, args in calls:
+        first[name] = [np.array(x, copy=True) for x in diffhist._flat_arrays(quiet(lambda: f(*[a.copy() for a in args])))]
+    for name, f, args in order + order[::-1]:
+        v += quiet(lambda: diffhist.purity_violations(name, f, [a.copy() for a in args]))
+        now = diffhist._flat_arrays(quiet(lambda: f(*[a.copy() for a in args])))
+        if len(now) != len(first[name]) or any(x.shape != y.shape or not np.allclose(x.astype(complex), y.astype(complex), rtol=1e-12, atol=1e-12) for x, y in zip(now, first[name])):
+            v.append({"key": "purity/order-of-calls/%s" % name.split("/")[0], "msg": "%s gives a different answer after the other maps were called (order rotation %d)" % (name, k)})
+    return {"v": v[:6], "t": 6 * len(calls), "o": "rot%d|%d" % (k, len(v)), "nt": True}
+
+
 def case_adjoint_complex(case):
     """gln_adjoint / sln_adjoint on COMPLEX matrices (all Gaussian-integer 2x2 matrices with entries in
     {0,+-1,+-i}, det 1), called without a dtype, with an explicit complex dtype, and through lie.hom:
@@ -779,6 +828,10 @@ def run(ctx):
         ctx.product("linear-maps", "checks.c17:case_linear", cases,
                     domains={"slc_to_slr": "k x k complex, k = 1..%d: points with <= 2 non-zero real coordinates in {1,2}; k = 1,2 also the full {0,1}^(4k^2) grid" % (3 if q else 4),
                              "block_include": "k x k into m x m, k = 1..3, m = k..k+2"}, chunk=1)
+    if want("purity"):
+        ctx.product("purity", "checks.c17:case_purity", [{"rot": r} for r in range(len(_purity_calls()))], chunk=1,
+                    domains={"maps": [c[0] for c in _purity_calls()], "orders": "every rotation of the list, forwards then backwards, all in one process",
+                             "demand": "arguments unchanged, answers independent of earlier calls (module-level caches), returned arrays not rewritten"})
     if want("adjoint"):
         cases = []
         for n in ([2, 3] if q else [2, 3, 4]):
